@@ -235,13 +235,50 @@ NA = {
 PENDING = "check not built yet at this commit (contracts for this property are still being written; see DESIGN section 12)"
 
 
+def deductive_functions():
+    """property -> (functions whose obligations are discharged deductively, assumed (trusted, non-bounded) contracts),
+    read from the contract registry itself so that the manifest cannot drift from what the checks do"""
+    import importlib
+    import pkgutil
+    import sys
+    sys.path.insert(0, ".")
+    import contracts
+    from contracts import dsl
+    for m in pkgutil.iter_modules(contracts.__path__):
+        if m.name.startswith("c_") or m.name in ("vocab", "lemmas"):
+            importlib.import_module("contracts." + m.name)
+    ded, assumed = {}, []
+    for key, c in dsl.CONTRACTS.items():
+        if c.bounded:
+            continue
+        if c.trusted:
+            assumed.append(key.split("::")[-1])
+            continue
+        for p in c.props:
+            ded.setdefault(p, []).append(key.split("::")[-1])
+    lem = {}
+    for name, l in dsl.LEMMAS.items():
+        for p in l.props:
+            lem.setdefault(p, []).append(name + (" (trusted)" if l.trusted else ""))
+    return ded, sorted(assumed), lem
+
+
 def main():
     props = [json.loads(l) for l in open("properties.jsonl")]
     checks, na = [], []
+    DED, ASSUMED, LEM = deductive_functions()
     for p in props:
         pid = p["id"]
         if pid in CLAIMED:
-            c = CLAIMED[pid]
+            c = dict(CLAIMED[pid])
+            if c["category"] != "proof" and DED.get(pid):
+                c["text"] = ("Deductive part (obligations generated from the real ASTs and discharged by SMT for all inputs, "
+                             "see evidence.functions_under_contract): %s%s. Bounded part: %s" % (
+                                 ", ".join(sorted(DED[pid])),
+                                 ("; lemmas " + ", ".join(sorted(LEM[pid]))) if LEM.get(pid) else "", c["text"]))
+                c["note"] = c["note"] + ("; the property is claimed at level 'other' because clauses outside the listed "
+                                         "functions rest on run-time contracts; assumed callee contracts used by the "
+                                         "deductive part are listed in the evidence (trusted)")
             checks.append(dict(
                 property_id=pid,
                 quick_cmd="./check %s --tier quick" % pid,
